@@ -50,6 +50,20 @@ func scriptItems(r *rt.Run, nRandom int) ([]item, map[string]any) {
 			})
 		}
 	}
+	// API histories replace the script on one id by ANOTHER script of the stream: the next item of the same edge
+	next := map[string]string{}
+	for i := len(c.items) - 1; i >= 0; i-- {
+		it := &c.items[i]
+		if len(it.Vars) == 0 {
+			it.Alt = next[it.Edge]
+			next[it.Edge] = it.Src
+		}
+	}
+	for i := range c.items {
+		if it := &c.items[i]; it.Alt == "" && len(it.Vars) == 0 {
+			it.Alt = next[it.Edge] // the last one wraps around
+		}
+	}
 	nm := 0
 	for _, k := range g.order {
 		nm += len(k.Members)
@@ -62,10 +76,11 @@ func scriptItems(r *rt.Run, nRandom int) ([]item, map[string]any) {
 }
 
 // kernelItems: the expression kernel.
-//   all15 : every binary operator at depth 2 (and nested once under each class operator)
-//   depth3: every well-parenthesised tree of depth <= 3 over one operator per class,
-//           exhaustively: the tree set of the TLC configuration of the same tier
-//   text variants: spacing styles 0..3, redundant parentheses
+//
+//	all15 : every binary operator at depth 2 (and nested once under each class operator)
+//	depth3: every well-parenthesised tree of depth <= 3 over one operator per class,
+//	        exhaustively: the tree set of the TLC configuration of the same tier
+//	text variants: spacing styles 0..3, redundant parentheses
 func kernelItems(r *rt.Run) ([]item, map[string]any) {
 	var out []item
 	leaves2 := []T{leaf("ref", "x"), leaf("int", "1")}
@@ -212,6 +227,7 @@ func randTree(r *rt.Run, d int) T {
 
 // Run: the check's driver.
 func runCheck(r *rt.Run) error {
+	OutDir = r.OutDir
 	nRandom := 1000
 	if r.Thorough() {
 		nRandom = 6000
@@ -294,8 +310,10 @@ func runCheck(r *rt.Run) error {
 func Run(r *rt.Run) error { return runCheck(r) }
 
 // Scan: cluster the deviations of all statement-level items (triage).
-//   kvh c13scan -out DIR [-tier thorough] [full] [dump FILE] [cat FILE]
+//
+//	kvh c13scan -out DIR [-tier thorough] [full] [dump FILE] [cat FILE]
 func Scan(r *rt.Run) error {
+	OutDir = r.OutDir
 	n := 400
 	if r.Thorough() {
 		n = 6000
